@@ -71,8 +71,8 @@ def permute_blocks(s, how, seed):
     return '.'.join(out)
 
 
-def full_dump(cg, fine):
-    return invariants.dump(cg) + '\n' + invariants.dump(fine)
+def full_dump(cg, fine, unordered_bonding=False):
+    return invariants.dump(cg, unordered_bonding) + '\n' + invariants.dump(fine, unordered_bonding)
 
 
 def lib_dump(dicts):
@@ -119,6 +119,30 @@ def oracle(case):
     meta = sut(read_cgsmiles, bl[0])
     d3 = full_dump(*sut(lambda: MoleculeResolver.from_graph('.'.join(bl[1:]), meta, last_all_atom=aa, legacy=legacy).resolve_all()))
     expect(d3 == ref, 'determinism:from_graph', 'from_graph(base graph + fragment string) differs from from_string')
+    if not case['dedicated'] or '!' in s:
+        # ambiguous descriptor sets: which of several compatible descriptors is used depends on the
+        # order in which the base edges are visited, i.e. on the insertion order of the given graph;
+        # with shared atoms the surviving copy (and the order of its memberships) depends on it too
+        return _rest_of_oracle(case, bl, ref, aa, legacy)
+    # the same base graph with its nodes inserted in another order is the same input
+    import random
+    order = list(meta.nodes)
+    random.Random(case['perm_seed']).shuffle(order)
+    meta2 = nx.Graph()
+    for k in order:
+        meta2.add_node(k, **{a: v for a, v in meta.nodes[k].items() if a in ('fragname', 'charge', 'weight') or a not in invariants.INTERNAL})
+    meta0 = sut(read_cgsmiles, bl[0])
+    for a, b, d in meta0.edges(data=True):
+        meta2.add_edge(a, b, **d)
+    d3b = full_dump(*sut(lambda: MoleculeResolver.from_graph('.'.join(bl[1:]), meta2, last_all_atom=aa, legacy=legacy).resolve_all()), True)
+    ref_u = full_dump(*sut(resolve_string, s, aa, legacy), True)
+    expect(d3b == ref_u, 'determinism:from_graph-node-order',
+           lambda: 'from_graph with the base-graph nodes inserted in the order %r differs from from_string' % order)
+    _rest_of_oracle(case, bl, ref, aa, legacy)
+
+
+def _rest_of_oracle(case, bl, ref, aa, legacy):
+    from cgsmiles import MoleculeResolver
     dicts = sut(MoleculeResolver.read_fragment_strings, bl[1:], last_all_atom=aa)
     before = lib_dump(dicts)
     d4 = full_dump(*sut(lambda: MoleculeResolver.from_fragment_dicts(bl[0], dicts, last_all_atom=aa, legacy=legacy).resolve_all()))
